@@ -125,7 +125,10 @@ META = {
         'level': 'Decides parent/child ownership and identity-based navigation: every statement that places elements into a '
                  'children list sets their parent in the same function or obtains them from _create_params(owner, ...) '
                  '(TREE-1), no tree class has an __eq__ that can hold between distinct nodes, sibling navigation uses `is`, '
-                 'leaf stepping moves one sibling and descends (TREE-2). Position lookup (binary search) is not decided.',
+                 'leaf stepping moves one sibling and descends (TREE-2); the position lookup returns None, the child its search '
+                 'located or that child\'s own lookup result (TREE-10); node types are tested for membership in collections only, '
+                 'the *args tuple of search_ancestor is never rebound (TREE-11). That the binary search selects the right child '
+                 '(comparisons over positions) is not decided.',
         'note': _TB,
         'technique': 'pairing rule over all children-list writes + equality-definition audit over the class hierarchy',
     },
@@ -174,7 +177,10 @@ META = {
                  '(grammar hash, path) by interprocedural role inference (CACHE-1), the pickle path depends on cache dir, '
                  'version tag, grammar hash and path hash (CACHE-4), identical grammar text implies identical version '
                  'predicates (GR-9), cached nodes are returned only under mtime <= entry time (CACHE-2), the stored time must '
-                 'be sampled before the read (CACHE-3; two listed known findings). Equality with a fresh parse is not decided.',
+                 'be sampled before the read (CACHE-3; two listed known findings); a parameter that carries a key role is not '
+                 'rebound before the store (CACHE-1), the pickle\'s modification time is only changed by writing new content '
+                 '(CACHE-5), the compared modification time is read live and file-io objects keep no state (CACHE-6). Equality '
+                 'with a fresh parse is not decided.',
         'note': _TB,
         'technique': 'role (provenance) dataflow across cache.py/grammar.py + edge-dominance of freshness tests',
     },
@@ -184,7 +190,8 @@ META = {
                  '(EXC-1: handler coverage + interprocedural propagation with a frozen may-raise table), and that writer and '
                  'reader use the same path expression and the writer puts new content in place - truncating write or a '
                  'freshly written temporary moved onto the path (CACHE-4); no local of cache.py can be read unbound in a '
-                 'handler or clean-up path (DA). "Returns the tree of the current '
+                 'handler or clean-up path (DA); the unpickled object is type-tested before it is used as an entry (EXC-2); the '
+                 'clean-up removes entries by access time only (CACHE-7) and file-io objects keep no state (CACHE-6). "Returns the tree of the current '
                  'content" and the atime-based in-use clause are not decided.',
         'note': _TB + 'May-raise table for ~12 stdlib calls (pickle.load: any Exception, as documented).',
         'technique': 'exception-escape analysis (handler coverage over the builtin exception hierarchy, call-graph propagation)',
